@@ -240,6 +240,20 @@ def run(report):
         items += [(_corpus_shard, files[i::nsh * 2]) for i in range(nsh * 2)]
     else:
         report.notes.append("standard library sources not found; corpus family skipped")
+    # host dimension: the f-string shapes and the literal positions of a seeded sample of the strings,
+    # round-tripped by the unparser running under the other host interpreters
+    from .. import hosts as _hosts
+    others = _hosts.available_other_hosts()
+    if others:
+        hs = [src for tag, src in lit.shapes_depth1()] + [src for tag, src in lit.shapes_depth2()]
+        hs += [src for tag, src in lit.shapes_depth3(random.Random(env.sub_seed(report.seed, "C04", "hd3")), 500 if quick else 8000)]
+        srng = random.Random(env.sub_seed(report.seed, "C04", "hstr"))
+        for st_ in srng.sample(strings, min(len(strings), 1500 if quick else 20000)):
+            hs += [src for pos, src in lit.positions(st_)]
+        per = max(1, env.NPROC // len(others))
+        items += [(c03.host_roundtrip_shard, (h, hs[j::per], "C04")) for h in others for j in range(per)]
+        report.extra["other_hosts"] = others
+        report.extra["host_sources"] = len(hs)
     for part in env.pmap(_call, items):
         report.absorb(part)
     report.exhaustive = True
@@ -255,6 +269,8 @@ def _call(item):
 
 
 def replay(payload):
+    if payload.get("kind") == "expr-host":
+        return c03.replay_expr_host(payload)
     k = payload.get("kind")
     if k == "expr":
         try:
